@@ -16,7 +16,7 @@ pub fn check_record(r: &Value) -> Verdict {
 
 pub fn run(ctx: &mut Ctx) {
     ctx.level = "translation_validation".into();
-    ctx.rule = "Programs as in C01 (without double), compiled for Metal. Functions that read or write static globals receive them as trailing reference parameters: the harness binds each such parameter by name to a cell holding the global's initial value from the IR and compares the cell's final value with the interpreter's global; functions with out/inout parameters are called through the emitted trampolines. Each function is run on 3 argument vectors by both evaluators; return value, out/inout parameters, implicit global cells and constant globals must be bit-identical. Text that is not meaningful as C++ (no function of that name and arity, reference bound to an rvalue or to a different type, parameter without default after a defaulted one, mixed-type metal:: builtin call) is a violation. Programs the Metal back end rejects with a diagnostic are skipped and counted. Non-trivial = at least one function compared; distinct = hash of (source, argument seed).".into();
+    ctx.rule = "Programs as in C01 (without double; operator-shape tables with crafted operand rows, the exhaustive aliasing table, generated programs with methods, namespaces and aliased out arguments), compiled for Metal. Functions that read or write static globals receive them as trailing reference parameters: the harness binds each such parameter by name to a cell holding the global's initial value from the IR and compares the cell's final value with the interpreter's global; functions with out/inout parameters are called through the emitted trampolines. Each function is run on 3 argument vectors by both evaluators; return value, out/inout parameters, implicit global cells and constant globals must be bit-identical. Text that is not meaningful as C++ (no function of that name and arity, reference bound to an rvalue or to a different type, parameter without default after a defaulted one, mixed-type metal:: builtin call) is a violation. Programs the Metal back end rejects with a diagnostic are skipped and counted. Non-trivial = at least one function compared; distinct = hash of (source, argument seed).".into();
     ctx.assumptions.push("operations with undefined results are given one fixed meaning in the shared value library, identical on both sides".into());
     ctx.assumptions.push("static globals are initialised by the pipeline entry point, which is absent in no-pipeline mode: their initial values are taken from the IR; the threading of the references, not the initialiser text, is what is checked for them".into());
     if !ctx.replay_tier(&check_record) {
